@@ -490,6 +490,18 @@ def wcnf_method(interp, ref, o: HWcnf, name, args, kwargs, node):
                 it = clause_item(interp, s[1], node)
             elif s[0] == "each":
                 it = ("each", s[1], s[2], s[3], clause_item(interp, s[4], node) if w is None else ("w", clause_item(interp, s[4], node), w))
+            elif s[0] == "each*" and isinstance(s[4], tuple) and s[4][:1] == ("each",):
+                # the clauses of the CNFs of a family (a flattened sequence of sequences): what the nested loops would append
+                inner = s[4]
+                ci = clause_item(interp, inner[4], node)
+                it = ("each", s[1], s[2], s[3], ("each", inner[1], inner[2], inner[3], ci if w is None else ("w", ci, w)))
+                if w is None:
+                    o.hard.append(it)
+                    interp.log("wcnf.hard", node, obj=ref, item=it)
+                else:
+                    o.soft.append(it)
+                    interp.log("wcnf.soft", node, obj=ref, item=it, weight=w)
+                continue
             else:
                 interp.err(node, "WCNF.extend with a sequence of unknown members")
             if w is None:
@@ -1291,6 +1303,22 @@ def _dict(interp, args, kwargs, node):
     return interp.alloc(d)
 
 
+@ext("contextlib.closing")
+def _closing(interp, args, kwargs, node):
+    """closing(x): `with closing(x) as y` binds x itself; leaving the block closes it (a generator that is not finished
+    is finished there - the engine runs generators where they are consumed, nothing is left open)."""
+    return args[0]
+
+
+@ext("collections.defaultdict")
+def _defaultdict(interp, args, kwargs, node):
+    if len(args) > 1 or kwargs:
+        interp.err(node, "collections.defaultdict with initial content")
+    d = HDict()
+    d.default_factory = args[0] if args and not (isinstance(args[0], Const) and args[0].value is None) else None
+    return interp.alloc(d)
+
+
 @ext("collections.Counter")
 def _counter(interp, args, kwargs, node):
     """Counter(xs) of concrete constants: how often each occurs, in order of first occurrence (anything else: unknown)."""
@@ -2029,6 +2057,17 @@ def dict_method(interp, ref, o: HDict, name, args, kwargs, node):
                     o.symkeys.update(src.symkeys)
                 if src.sym:
                     o.sym = o.sym or src.sym
+            elif isinstance(a, (Ref, GenV)) and not (isinstance(a, Ref) and not isinstance(interp.deref(a), HList)):
+                # a sequence of (key, value) pairs (a list, a generator expression, a generator of the repository)
+                for sg in interp.segments(a, node):
+                    if sg[0] == "one" and isinstance(sg[1], TupleV) and len(sg[1].items) == 2:
+                        interp.dict_store(o, sg[1].items[0], sg[1].items[1], node, ref)
+                        interp.log("dict.set", node, obj=ref, key=sg[1].items[0], value=sg[1].items[1])
+                    elif sg[0] == "each" and isinstance(sg[4], TupleV) and len(sg[4].items) == 2:
+                        o.each.append(("each", sg[1], sg[2], sg[3], sg[4].items[0], sg[4].items[1]))
+                        interp.log("dict.set", node, obj=ref, key=sg[4].items[0], value=sg[4].items[1])
+                    else:
+                        o.sym = o.sym or ("update", desc(a))
             else:
                 o.sym = o.sym or ("update", desc(a))
         for k, v in kwargs.items():
